@@ -34,6 +34,9 @@ def concretize(prop, ob):
               "FileHashStore._write_to_tmp_file_and_get_hex_digests",
               "FileHashStore._mktmpmetadata") and kinds:
         out.append(("store_roundtrip", {"kind": kinds[0], "offset": max(0, model.get("stream_pos0", 0) or 0) % 4}))
+    if short_name(fn) in ("_move_and_get_checksums", "_store_and_validate_data", "_store_data_only",
+                          "store_object") and "post/" in name:
+        out.append(("store_with_cwd_decoy", {}))
     if fn == "FileHashStore.store_object" and kinds and "post/outcome" in name:
         out.append(("store_roundtrip", {"kind": kinds[0]}))
     if "_refine_algorithm_list" in fn or (fn == "FileHashStore.store_object" and "frame-self" in name) \
@@ -97,7 +100,7 @@ def concretize(prop, ob):
         import re as _re
         mode = name[6:name.index("]")]
         scen = name[name.index("]/") + 2:name.rindex("/")]
-        m = _re.search(r"after ([a-z+\-]+)@(?:mkloc|sdir)\((\d+)", detail)
+        m = _re.search(r"(?:after )?([a-z+\-]+)@(?:mkloc|sdir)\((\d+)", detail)
         if m:
             kinds = {"0": "obj", "1": "pidref", "2": "cidref", "3": "meta", "4": "tmp-obj",
                      "5": "tmp-meta", "6": "tmp-refs"}
@@ -105,7 +108,7 @@ def concretize(prop, ob):
             if prim == "read":
                 prim = "open-r"      # natively a failing read is injected at the open
             # a marked location (<name>_delete) is its own category in the native fault plan
-            mm = _re.search(r"after [a-z+\-]+@mkloc\(.*?,\s*(\d+)\)\s*$", detail, _re.S)
+            mm = _re.search(r"[a-z+\-]+@mkloc\(.*,\s*(\d+)\)\s*$", detail, _re.S)
             marked = "-marked" if (mm and mm.group(1) != "0") else ""
             out.append(("fault_call", {"scenario": scen, "prim": prim,
                                        "target": kinds.get(m.group(2), "?") + marked,
@@ -148,6 +151,11 @@ def concretize(prop, ob):
         out.append(("refs_helper_pool", {}))
     if short in REFLAYER or name.startswith("lemma/"):
         out.append(("model_sweep", {"length": 3, "focus": ["tag", "delete", "store"]}))
+    if short in ("_is_string_in_refs_file", "_update_refs_file", "_write_refs_file",
+                 "_verify_hashstore_references", "_find_object"):
+        # identifiers that differ only in letter case, sharing one object
+        out.append(("model_sweep", {"length": 3, "focus": ["delete"], "contents": 1, "no_tag": True,
+                                    "pids": ["doi:10.1/AB", "doi:10.1/ab"]}))
     if short in METALAYER:
         out.append(("model_sweep", {"length": 3, "metadata": True, "no_objects": True,
                                     "explicit_default": True, "focus": ["dmeta"],
@@ -173,6 +181,23 @@ def _canon(sp):
     return None
 
 
+CHEAP = {"store_with_cwd_decoy", "identifier_pool", "digest_history", "store_roundtrip", "pure_call", "refs_helper_pool",
+         "digest_keys_independent", "observe_steps"}
+
+
+def _model_cfg(model):
+    names = {"md5": "MD5", "sha1": "SHA-1", "sha256": "SHA-256", "sha384": "SHA-384", "sha512": "SHA-512"}
+    hexlen = {"md5": 32, "sha1": 40, "sha256": 64, "sha384": 96, "sha512": 128}
+    a = model.get("self.algorithm")
+    if a not in names:
+        return None
+    d, w = model.get("self.depth"), model.get("self.width")
+    if not (isinstance(d, int) and isinstance(w, int) and 1 <= d <= 8 and 1 <= w <= 8
+            and d * w < hexlen[a]):
+        d, w = DEFAULT_CFG["depth"], DEFAULT_CFG["width"]
+    return {"depth": d, "width": w, "algorithm": names[a], "namespace": DEFAULT_CFG["namespace"]}
+
+
 def replay_refutation(prop, ob, bad, root):
     key = hashlib.sha256((prop + ob["name"] + str(ob.get("site"))).encode()).hexdigest()[:12]
     path = os.path.join(root, "replays", f"{prop}-{key}.json")
@@ -182,15 +207,20 @@ def replay_refutation(prop, ob, bad, root):
                      "path_decisions": ob.get("path"), "refuted_on_paths": len(bad)},
           "config": DEFAULT_CFG, "oracle": None, "params": None, "verdict": None,
           "observed": None, "tried": []}
-    cands = concretize(prop, ob)
+    cands = [(o, q, DEFAULT_CFG) for o, q in concretize(prop, ob)]
+    # the counter-model's store configuration (algorithm, depth, width) for the cheap oracles: a
+    # defect that only shows under a non-default configuration needs it
+    alt = _model_cfg(ob.get("model") or {})
+    if alt and alt != DEFAULT_CFG:
+        cands += [(o, q, alt) for o, q, _ in list(cands) if o in CHEAP]
     verdict = "no-failing-input-found"
     any_ok = False
-    for oracle, params in cands:
-        sc.update(oracle=oracle, params=params)
+    for oracle, params, cfg in cands:
+        sc.update(oracle=oracle, params=params, config=cfg)
         with open(path, "w") as fh:
             json.dump(sc, fh, indent=1, default=str)
         res = run_driver(path, root)
-        sc["tried"].append({"oracle": oracle, "params": params, "result": res})
+        sc["tried"].append({"oracle": oracle, "params": params, "config": cfg, "result": res})
         if res.get("reproduced") is True:
             verdict = "reproduced"
             sc["observed"] = res.get("observed")
